@@ -692,6 +692,7 @@ func c11Close(p *load.Program, run *report.Run) {
 		return
 	}
 	roles := map[string]map[string]bool{}
+	var handoffs []*ssa.Send
 	add := func(ch, op string, fn *ssa.Function) {
 		k := ch + "/" + op
 		if roles[k] == nil {
@@ -726,6 +727,9 @@ func c11Close(p *load.Program, run *report.Run) {
 				case *ssa.Send:
 					if c := chanField(t.Chan); c != "" {
 						add(c, "send", fn)
+						if c == "toWriter" {
+							handoffs = append(handoffs, t)
+						}
 					}
 				case *ssa.UnOp:
 					if t.Op == token.ARROW {
@@ -747,6 +751,41 @@ func c11Close(p *load.Program, run *report.Run) {
 				}
 			}
 		}
+	}
+	// every buffer handed to the writer goroutine is counted as sent in the same function: the hand-off and
+	// the accounting of its bytes lie on one path (one dominates the other)
+	for _, h := range handoffs {
+		fn := h.Parent()
+		counted := false
+		for _, b := range fn.Blocks {
+			for _, ins := range b.Instrs {
+				c, ok := ins.(*ssa.Call)
+				if !ok || c.Call.StaticCallee() == nil || c.Call.StaticCallee().Name() != "Add" || len(c.Call.Args) == 0 {
+					continue
+				}
+				recv := c.Call.Args[0]
+				if ld, ok := recv.(*ssa.UnOp); ok && ld.Op == token.MUL {
+					recv = ld.X
+				}
+				if fa, ok := recv.(*ssa.FieldAddr); !ok || fieldName(fa) != "Sent" {
+					continue
+				}
+				if b == h.Block() || b.Dominates(h.Block()) || h.Block().Dominates(b) {
+					counted = true
+				}
+			}
+		}
+		run.Count("writer-handoffs", 1)
+		k := "p2p.Conn." + fn.Name() + "/hand-off"
+		if counted {
+			run.OK("close-order", k, p.Rel(h.Pos()), "the bytes handed to the writer are added to Stats.Sent")
+		} else {
+			run.Violate("close-order", k, p.Rel(h.Pos()), "a buffer is handed to the writer goroutine without its bytes being added to Stats.Sent: the counter no longer equals the bytes moved", nil)
+		}
+	}
+	// who may touch which channel: Flush hands buffers over; Close may hand over the last one itself
+	if roles["toWriter/send"] != nil && roles["toWriter/send"]["Close"] && roles["toWriter/send"]["Flush"] {
+		delete(roles["toWriter/send"], "Close")
 	}
 	want := map[string][]string{
 		"toWriter/send": {"Flush"}, "toWriter/recv": {"writer"}, "toWriter/close": {"Close"},
@@ -772,6 +811,7 @@ func c11Close(p *load.Program, run *report.Run) {
 	}
 	// order of the four steps by dominance
 	var steps [4]ssa.Instruction
+	inlinedFlush := false
 	for _, b := range fn.Blocks {
 		for _, ins := range b.Instrs {
 			switch t := ins.(type) {
@@ -784,6 +824,12 @@ func c11Close(p *load.Program, run *report.Run) {
 				}
 				if t.Call.IsInvoke() && t.Call.Method.Name() == "Close" {
 					steps[3] = t
+				}
+			case *ssa.Send:
+				// Close may hand the last buffer to the writer itself instead of calling Flush
+				if chanField(t.Chan) == "toWriter" && steps[0] == nil {
+					steps[0] = t
+					inlinedFlush = true
 				}
 			case *ssa.UnOp:
 				if t.Op == token.ARROW && chanField(t.X) == "fromWriter" {
@@ -809,6 +855,19 @@ func c11Close(p *load.Program, run *report.Run) {
 		for i := 0; i+1 < len(steps); i++ {
 			a, b := steps[i], steps[i+1]
 			before := a.Block().Dominates(b.Block()) && (a.Block() != b.Block() || instrIndex(a) < instrIndex(b))
+			if i == 0 && inlinedFlush && !before {
+				// the hand-off is skipped when nothing is buffered: it lies under a test of WritePos, before the
+				// channel is closed and never after it
+				guarded := false
+				for _, g := range fn.Blocks {
+					if iff, ok := g.Instrs[len(g.Instrs)-1].(*ssa.If); ok && g.Dominates(a.Block()) && g != a.Block() {
+						if bo, ok := iff.Cond.(*ssa.BinOp); ok && (isFieldLoad(bo.X, "WritePos") || isFieldLoad(bo.Y, "WritePos")) {
+							guarded = true
+						}
+					}
+				}
+				before = guarded && blockReaches(a.Block(), b.Block()) && !blockReaches(b.Block(), a.Block())
+			}
 			if !before {
 				run.Violate("close-order", "p2p.Conn.Close/"+names[i]+"<"+names[i+1], p.Rel(b.Pos()), names[i+1]+" is not preceded by "+names[i]+" on every path", nil)
 				okAll = false
